@@ -1,1 +1,830 @@
-// C17 harnesses
+//! C17: BlockRanges behaves as a set of heights.
+//!
+//! Every harness is ONE inductive step: an arbitrary representation-valid `BlockRanges` with a
+//! fixed number of stored ranges whose bounds are free u64 values, one operation with free
+//! arguments, and a universally quantified probe height `h` (a free u64): the result must be
+//! representation-valid and `h` must be a member exactly when the set-theoretic definition says so.
+use crate::block_ranges::{BlockRange, BlockRangeExt, BlockRanges};
+use crate::common::*;
+
+fn in_range(a: u64, e: u64, h: u64) -> bool {
+    a <= h && h <= e
+}
+
+fn insert<const N: usize>() {
+    let b = any_bounds::<N>();
+    let mut r = build(&b);
+    let (a, e, h): (u64, u64, u64) = kani::any();
+    let before = mem(&b, h);
+    let res = r.insert_relaxed(a..=e);
+    let valid = a >= 1 && a <= e;
+    assert!(res.is_ok() == valid, "C17 insert: Ok iff the range is valid");
+    assert!(repr_ok(&r), "C17 insert: representation invariant broken");
+    if valid {
+        assert!(rmem(&r, h) == (before || in_range(a, e, h)), "C17 insert: result is not S + [a,e]");
+    } else {
+        assert!(rmem(&r, h) == before, "C17 insert: rejected insert changed the set");
+    }
+    kani::cover!(valid, "witness: valid insert");
+    kani::cover!(!valid, "witness: invalid insert");
+}
+
+fn remove<const N: usize>() {
+    let b = any_bounds::<N>();
+    let mut r = build(&b);
+    let (a, e, h): (u64, u64, u64) = kani::any();
+    let before = mem(&b, h);
+    let res = r.remove_relaxed(a..=e);
+    let valid = a >= 1 && a <= e;
+    assert!(res.is_ok() == valid, "C17 remove: Ok iff the range is valid");
+    assert!(repr_ok(&r), "C17 remove: representation invariant broken");
+    if valid {
+        assert!(rmem(&r, h) == (before && !in_range(a, e, h)), "C17 remove: result is not S - [a,e]");
+    } else {
+        assert!(rmem(&r, h) == before, "C17 remove: rejected remove changed the set");
+    }
+    kani::cover!(valid, "witness: valid remove");
+    kani::cover!(!valid, "witness: invalid remove");
+}
+
+fn complement<const N: usize>() {
+    let b = any_bounds::<N>();
+    let r = build(&b);
+    let h: u64 = kani::any();
+    let c = !r;
+    assert!(repr_ok(&c), "C17 complement: representation invariant broken");
+    assert!(rmem(&c, h) == (h >= 1 && !mem(&b, h)), "C17 complement: result is not [1,MAX] - S");
+    kani::cover!(rmem(&c, h), "witness: complement non-empty");
+}
+
+fn union<const N: usize, const M: usize>() {
+    let x = any_bounds::<N>();
+    let y = any_bounds::<M>();
+    let h: u64 = kani::any();
+    let r = build(&x) | build(&y);
+    assert!(repr_ok(&r), "C17 union: representation invariant broken");
+    assert!(rmem(&r, h) == (mem(&x, h) || mem(&y, h)), "C17 union: result is not A + B");
+    kani::cover!(true, "witness: union reached");
+}
+
+fn add<const N: usize, const M: usize>() {
+    let x = any_bounds::<N>();
+    let y = any_bounds::<M>();
+    let h: u64 = kani::any();
+    let mut r = build(&x);
+    r += &build(&y);
+    assert!(repr_ok(&r), "C17 add: representation invariant broken");
+    assert!(rmem(&r, h) == (mem(&x, h) || mem(&y, h)), "C17 add: result is not A + B");
+    kani::cover!(true, "witness: add reached");
+}
+
+fn difference<const N: usize, const M: usize>() {
+    let x = any_bounds::<N>();
+    let y = any_bounds::<M>();
+    let h: u64 = kani::any();
+    let r = build(&x) - build(&y);
+    assert!(repr_ok(&r), "C17 difference: representation invariant broken");
+    assert!(rmem(&r, h) == (mem(&x, h) && !mem(&y, h)), "C17 difference: result is not A - B");
+    kani::cover!(true, "witness: difference reached");
+}
+
+// Intersection is implemented as `!(!A | !B)`. Executing three complements and a union
+// symbolically in one query is out of reach (CBMC aborts at the 14 GB cap even for empty
+// operands), so it is decided compositionally: `Not::not` and `BitOr::bitor` are replaced
+// (kani::stub) by their CONTRACTS -- an arbitrary representation-valid value whose membership
+// at the probe height is what complement / union prescribe -- and the real
+// `bitand_assign`/`bitand` bodies are executed on top of them. The contracts themselves are
+// what the `c17_complement_*` and `c17_union_*` harnesses establish for the real bodies.
+static mut PROBE: u64 = 0;
+
+fn any_small() -> BlockRanges {
+    // arbitrary valid value with 0, 1 or 2 ranges; only its membership at PROBE and its
+    // validity are observed by the callers below
+    let k: u8 = kani::any();
+    if k == 0 {
+        build(&any_bounds::<0>())
+    } else if k == 1 {
+        build(&any_bounds::<1>())
+    } else {
+        build(&any_bounds::<2>())
+    }
+}
+
+fn not_contract(x: BlockRanges) -> BlockRanges {
+    let h = unsafe { PROBE };
+    let c = any_small();
+    kani::assume(rmem(&c, h) == (h >= 1 && !rmem(&x, h)));
+    c
+}
+
+fn bitor_contract(x: BlockRanges, y: BlockRanges) -> BlockRanges {
+    let h = unsafe { PROBE };
+    let c = any_small();
+    kani::assume(rmem(&c, h) == (rmem(&x, h) || rmem(&y, h)));
+    c
+}
+
+fn intersection<const N: usize, const M: usize>() {
+    let x = any_bounds::<N>();
+    let y = any_bounds::<M>();
+    let h: u64 = kani::any();
+    unsafe { PROBE = h };
+    let r = if kani::any() {
+        build(&x) & build(&y)
+    } else {
+        let mut a = build(&x);
+        a &= &build(&y);
+        a
+    };
+    assert!(repr_ok(&r), "C17 intersection: representation invariant broken");
+    assert!(rmem(&r, h) == (mem(&x, h) && mem(&y, h)), "C17 intersection: result is not A & B");
+    kani::cover!(rmem(&r, h), "witness: intersection non-empty");
+}
+
+fn queries<const N: usize>() {
+    let b = any_bounds::<N>();
+    let r = build(&b);
+    let h: u64 = kani::any();
+    assert!(r.contains(h) == mem(&b, h), "C17 contains: wrong membership");
+    assert!(r.len() as u128 == card(&b), "C17 len: wrong cardinality");
+    assert!(r.is_empty() == (N == 0), "C17 is_empty: wrong");
+    match r.head() {
+        None => assert!(N == 0, "C17 head: None on non-empty set"),
+        Some(x) => {
+            assert!(mem(&b, x), "C17 head: not a member");
+            assert!(!mem(&b, h) || h <= x, "C17 head: not the maximum");
+        }
+    }
+    match r.tail() {
+        None => assert!(N == 0, "C17 tail: None on non-empty set"),
+        Some(x) => {
+            assert!(mem(&b, x), "C17 tail: not a member");
+            assert!(!mem(&b, h) || h >= x, "C17 tail: not the minimum");
+        }
+    }
+    kani::cover!(mem(&b, h) || N == 0, "witness: probe inside the set");
+}
+
+fn pop_head<const N: usize>() {
+    let b = any_bounds::<N>();
+    let mut r = build(&b);
+    let h: u64 = kani::any();
+    let popped = if kani::any() { r.pop_head() } else { r.next_back() };
+    assert!(repr_ok(&r), "C17 pop_head: representation invariant broken");
+    match popped {
+        None => assert!(N == 0, "C17 pop_head: None on non-empty set"),
+        Some(x) => {
+            assert!(mem(&b, x) && (!mem(&b, h) || h <= x), "C17 pop_head: did not return the maximum");
+            assert!(rmem(&r, h) == (mem(&b, h) && h != x), "C17 pop_head: result is not S minus its maximum");
+        }
+    }
+    kani::cover!(popped.is_some() || N == 0, "witness: pop_head reached");
+}
+
+fn pop_tail<const N: usize>() {
+    let b = any_bounds::<N>();
+    let mut r = build(&b);
+    let h: u64 = kani::any();
+    let popped = if kani::any() { r.pop_tail() } else { r.next() };
+    assert!(repr_ok(&r), "C17 pop_tail: representation invariant broken");
+    match popped {
+        None => assert!(N == 0, "C17 pop_tail: None on non-empty set"),
+        Some(x) => {
+            assert!(mem(&b, x) && (!mem(&b, h) || h >= x), "C17 pop_tail: did not return the minimum");
+            assert!(rmem(&r, h) == (mem(&b, h) && h != x), "C17 pop_tail: result is not S minus its minimum");
+        }
+    }
+    kani::cover!(popped.is_some() || N == 0, "witness: pop_tail reached");
+}
+
+fn headn<const N: usize>() {
+    let b = any_bounds::<N>();
+    let r = build(&b);
+    let (limit, h1, h2): (u64, u64, u64) = kani::any();
+    let t = r.headn(limit);
+    assert!(repr_ok(&t), "C17 headn: representation invariant broken");
+    let c = card(&b);
+    let want = if (limit as u128) < c { limit as u128 } else { c };
+    assert!(rcard(&t) == want, "C17 headn: wrong number of heights");
+    assert!(!rmem(&t, h1) || mem(&b, h1), "C17 headn: result not a subset");
+    // everything left out is below everything kept
+    assert!(!(mem(&b, h1) && !rmem(&t, h1) && rmem(&t, h2)) || h1 < h2, "C17 headn: not the highest heights");
+    kani::cover!(N == 0 || (limit > 0 && (limit as u128) < c), "witness: headn truncates");
+}
+
+fn tailn<const N: usize>() {
+    let b = any_bounds::<N>();
+    let r = build(&b);
+    let (limit, h1, h2): (u64, u64, u64) = kani::any();
+    let t = r.tailn(limit);
+    assert!(repr_ok(&t), "C17 tailn: representation invariant broken");
+    let c = card(&b);
+    let want = if (limit as u128) < c { limit as u128 } else { c };
+    assert!(rcard(&t) == want, "C17 tailn: wrong number of heights");
+    assert!(!rmem(&t, h1) || mem(&b, h1), "C17 tailn: result not a subset");
+    assert!(!(mem(&b, h1) && !rmem(&t, h1) && rmem(&t, h2)) || h1 > h2, "C17 tailn: not the lowest heights");
+    kani::cover!(N == 0 || (limit > 0 && (limit as u128) < c), "witness: tailn truncates");
+}
+
+fn edges<const N: usize>() {
+    let b = any_bounds::<N>();
+    let r = build(&b);
+    let h: u64 = kani::any();
+    let e = r.edges();
+    assert!(repr_ok(&e), "C17 edges: representation invariant broken");
+    let below = h > 1 && mem(&b, h - 1);
+    let above = h < u64::MAX && mem(&b, h + 1);
+    assert!(rmem(&e, h) == (mem(&b, h) && (!below || !above)), "C17 edges: not exactly the boundary heights");
+    kani::cover!(rmem(&e, h) || N == 0, "witness: edges reached");
+}
+
+fn left_right_of<const N: usize>() {
+    let b = any_bounds::<N>();
+    let r = build(&b);
+    let (x, h): (u64, u64) = kani::any();
+    kani::assume(x >= 1); // heights are >= 1 (documented domain of BlockRanges)
+    match r.left_of(x) {
+        Some(y) => {
+            assert!(mem(&b, y) && y < x, "C17 left_of: not a member below x");
+            assert!(!(mem(&b, h) && h < x) || h <= y, "C17 left_of: not the greatest member below x");
+        }
+        None => assert!(!(mem(&b, h) && h < x), "C17 left_of: None although a member below x exists"),
+    }
+    match r.right_of(x) {
+        Some(y) => {
+            assert!(mem(&b, y) && y > x, "C17 right_of: not a member above x");
+            assert!(!(mem(&b, h) && h > x) || h >= y, "C17 right_of: not the least member above x");
+        }
+        None => assert!(!(mem(&b, h) && h > x), "C17 right_of: None although a member above x exists"),
+    }
+    kani::cover!(N == 0 || r.left_of(x).is_some(), "witness: left_of finds a height");
+}
+
+fn partitions<const N: usize>() {
+    let b = any_bounds::<N>();
+    let r = build(&b);
+    let (h, h2): (u64, u64) = kani::any();
+    match r.partitions() {
+        None => assert!(N == 0, "C17 partitions: None on non-empty set"),
+        Some((l, m, rr)) => {
+            assert!(repr_ok(&l) && repr_ok(&rr), "C17 partitions: representation invariant broken");
+            assert!(mem(&b, m), "C17 partitions: middle not a member");
+            assert!(mem(&b, h) == (rmem(&l, h) || h == m || rmem(&rr, h)), "C17 partitions: parts do not cover the set");
+            assert!(!rmem(&l, h) || h < m, "C17 partitions: left not below middle");
+            assert!(!rmem(&rr, h) || h > m, "C17 partitions: right not above middle");
+            let (cl, cr) = (rcard(&l), rcard(&rr));
+            assert!(cl <= cr + 1 && cr <= cl + 1, "C17 partitions: not balanced");
+        }
+    }
+    kani::cover!(N == 0 || r.partitions().is_some(), "witness: partitions reached");
+}
+
+// @verif prop=C17 tier=quick shape="0 stored ranges with free u64 bounds (invariant assumed); op args a,e free u64; probe height free u64" funcs="BlockRanges::insert_relaxed,BlockRanges::find_affected_ranges,BlockRangeExt::{validate,is_adjacent,is_overlapping}"
+#[kani::proof]
+#[kani::unwind(8)]
+#[kani::solver(minisat)]
+fn c17_insert_n0() {
+    insert::<0>();
+}
+
+// @verif prop=C17 tier=quick shape="1 stored ranges with free u64 bounds (invariant assumed); op args a,e free u64; probe height free u64" funcs="BlockRanges::insert_relaxed,BlockRanges::find_affected_ranges,BlockRangeExt::{validate,is_adjacent,is_overlapping}"
+#[kani::proof]
+#[kani::unwind(8)]
+#[kani::solver(minisat)]
+fn c17_insert_n1() {
+    insert::<1>();
+}
+
+// @verif prop=C17 tier=thorough shape="2 stored ranges with free u64 bounds (invariant assumed); op args a,e free u64; probe height free u64" funcs="BlockRanges::insert_relaxed,BlockRanges::find_affected_ranges,BlockRangeExt::{validate,is_adjacent,is_overlapping}"
+#[kani::proof]
+#[kani::unwind(8)]
+#[kani::solver(minisat)]
+fn c17_insert_n2() {
+    insert::<2>();
+}
+
+// @verif prop=C17 tier=thorough shape="3 stored ranges with free u64 bounds (invariant assumed); op args a,e free u64; probe height free u64" funcs="BlockRanges::insert_relaxed,BlockRanges::find_affected_ranges,BlockRangeExt::{validate,is_adjacent,is_overlapping}"
+#[kani::proof]
+#[kani::unwind(8)]
+#[kani::solver(minisat)]
+fn c17_insert_n3() {
+    insert::<3>();
+}
+
+// @verif prop=C17 tier=quick shape="0 stored ranges with free u64 bounds (invariant assumed); op args a,e free u64; probe height free u64" funcs="BlockRanges::remove_relaxed,BlockRanges::find_affected_ranges,BlockRangeExt::{validate,is_adjacent,is_overlapping}"
+#[kani::proof]
+#[kani::unwind(8)]
+#[kani::solver(minisat)]
+fn c17_remove_n0() {
+    remove::<0>();
+}
+
+// @verif prop=C17 tier=quick shape="1 stored ranges with free u64 bounds (invariant assumed); op args a,e free u64; probe height free u64" funcs="BlockRanges::remove_relaxed,BlockRanges::find_affected_ranges,BlockRangeExt::{validate,is_adjacent,is_overlapping}"
+#[kani::proof]
+#[kani::unwind(8)]
+#[kani::solver(minisat)]
+fn c17_remove_n1() {
+    remove::<1>();
+}
+
+// @verif prop=C17 tier=thorough shape="2 stored ranges with free u64 bounds (invariant assumed); op args a,e free u64; probe height free u64" funcs="BlockRanges::remove_relaxed,BlockRanges::find_affected_ranges,BlockRangeExt::{validate,is_adjacent,is_overlapping}"
+#[kani::proof]
+#[kani::unwind(8)]
+#[kani::solver(minisat)]
+fn c17_remove_n2() {
+    remove::<2>();
+}
+
+// @verif prop=C17 tier=thorough shape="3 stored ranges with free u64 bounds (invariant assumed); op args a,e free u64; probe height free u64" funcs="BlockRanges::remove_relaxed,BlockRanges::find_affected_ranges,BlockRangeExt::{validate,is_adjacent,is_overlapping}"
+#[kani::proof]
+#[kani::unwind(8)]
+#[kani::solver(minisat)]
+fn c17_remove_n3() {
+    remove::<3>();
+}
+
+// @verif prop=C17 tier=quick shape="0 stored ranges with free u64 bounds (invariant assumed); ; probe height free u64" funcs="<BlockRanges as Not>::not,BlockRanges::remove_relaxed,BlockRanges::insert_relaxed"
+#[kani::proof]
+#[kani::unwind(8)]
+#[kani::solver(minisat)]
+fn c17_complement_n0() {
+    complement::<0>();
+}
+
+// @verif prop=C17 tier=quick shape="1 stored ranges with free u64 bounds (invariant assumed); ; probe height free u64" funcs="<BlockRanges as Not>::not,BlockRanges::remove_relaxed,BlockRanges::insert_relaxed"
+#[kani::proof]
+#[kani::unwind(8)]
+#[kani::solver(minisat)]
+fn c17_complement_n1() {
+    complement::<1>();
+}
+
+// @verif prop=C17 tier=thorough shape="2 stored ranges with free u64 bounds (invariant assumed); ; probe height free u64" funcs="<BlockRanges as Not>::not,BlockRanges::remove_relaxed,BlockRanges::insert_relaxed"
+#[kani::proof]
+#[kani::unwind(8)]
+#[kani::solver(minisat)]
+fn c17_complement_n2() {
+    complement::<2>();
+}
+
+// @verif prop=C17 tier=thorough shape="3 stored ranges with free u64 bounds (invariant assumed); ; probe height free u64" funcs="<BlockRanges as Not>::not,BlockRanges::remove_relaxed,BlockRanges::insert_relaxed"
+#[kani::proof]
+#[kani::unwind(8)]
+#[kani::solver(minisat)]
+fn c17_complement_n3() {
+    complement::<3>();
+}
+
+// @verif prop=C17 tier=quick shape="0 stored ranges with free u64 bounds (invariant assumed); ; probe height free u64" funcs="BlockRanges::{contains,len,is_empty,head,tail},BlockRangeExt::len"
+#[kani::proof]
+#[kani::unwind(8)]
+#[kani::solver(minisat)]
+fn c17_queries_n0() {
+    queries::<0>();
+}
+
+// @verif prop=C17 tier=quick shape="1 stored ranges with free u64 bounds (invariant assumed); ; probe height free u64" funcs="BlockRanges::{contains,len,is_empty,head,tail},BlockRangeExt::len"
+#[kani::proof]
+#[kani::unwind(8)]
+#[kani::solver(minisat)]
+fn c17_queries_n1() {
+    queries::<1>();
+}
+
+// @verif prop=C17 tier=thorough shape="2 stored ranges with free u64 bounds (invariant assumed); ; probe height free u64" funcs="BlockRanges::{contains,len,is_empty,head,tail},BlockRangeExt::len"
+#[kani::proof]
+#[kani::unwind(8)]
+#[kani::solver(minisat)]
+fn c17_queries_n2() {
+    queries::<2>();
+}
+
+// @verif prop=C17 tier=thorough shape="3 stored ranges with free u64 bounds (invariant assumed); ; probe height free u64" funcs="BlockRanges::{contains,len,is_empty,head,tail},BlockRangeExt::len"
+#[kani::proof]
+#[kani::unwind(8)]
+#[kani::solver(minisat)]
+fn c17_queries_n3() {
+    queries::<3>();
+}
+
+// @verif prop=C17 tier=quick shape="0 stored ranges with free u64 bounds (invariant assumed); ; probe height free u64" funcs="BlockRanges::pop_head,DoubleEndedIterator::next_back"
+#[kani::proof]
+#[kani::unwind(8)]
+#[kani::solver(minisat)]
+fn c17_pop_head_n0() {
+    pop_head::<0>();
+}
+
+// @verif prop=C17 tier=quick shape="1 stored ranges with free u64 bounds (invariant assumed); ; probe height free u64" funcs="BlockRanges::pop_head,DoubleEndedIterator::next_back"
+#[kani::proof]
+#[kani::unwind(8)]
+#[kani::solver(minisat)]
+fn c17_pop_head_n1() {
+    pop_head::<1>();
+}
+
+// @verif prop=C17 tier=thorough shape="2 stored ranges with free u64 bounds (invariant assumed); ; probe height free u64" funcs="BlockRanges::pop_head,DoubleEndedIterator::next_back"
+#[kani::proof]
+#[kani::unwind(8)]
+#[kani::solver(minisat)]
+fn c17_pop_head_n2() {
+    pop_head::<2>();
+}
+
+// @verif prop=C17 tier=thorough shape="3 stored ranges with free u64 bounds (invariant assumed); ; probe height free u64" funcs="BlockRanges::pop_head,DoubleEndedIterator::next_back"
+#[kani::proof]
+#[kani::unwind(8)]
+#[kani::solver(minisat)]
+fn c17_pop_head_n3() {
+    pop_head::<3>();
+}
+
+// @verif prop=C17 tier=quick shape="0 stored ranges with free u64 bounds (invariant assumed); ; probe height free u64" funcs="BlockRanges::pop_tail,Iterator::next"
+#[kani::proof]
+#[kani::unwind(8)]
+#[kani::solver(minisat)]
+fn c17_pop_tail_n0() {
+    pop_tail::<0>();
+}
+
+// @verif prop=C17 tier=quick shape="1 stored ranges with free u64 bounds (invariant assumed); ; probe height free u64" funcs="BlockRanges::pop_tail,Iterator::next"
+#[kani::proof]
+#[kani::unwind(8)]
+#[kani::solver(minisat)]
+fn c17_pop_tail_n1() {
+    pop_tail::<1>();
+}
+
+// @verif prop=C17 tier=thorough shape="2 stored ranges with free u64 bounds (invariant assumed); ; probe height free u64" funcs="BlockRanges::pop_tail,Iterator::next"
+#[kani::proof]
+#[kani::unwind(8)]
+#[kani::solver(minisat)]
+fn c17_pop_tail_n2() {
+    pop_tail::<2>();
+}
+
+// @verif prop=C17 tier=thorough shape="3 stored ranges with free u64 bounds (invariant assumed); ; probe height free u64" funcs="BlockRanges::pop_tail,Iterator::next"
+#[kani::proof]
+#[kani::unwind(8)]
+#[kani::solver(minisat)]
+fn c17_pop_tail_n3() {
+    pop_tail::<3>();
+}
+
+// @verif prop=C17 tier=quick shape="0 stored ranges with free u64 bounds (invariant assumed); limit free u64; probe height free u64" funcs="BlockRanges::headn,BlockRangeExt::headn,BlockRanges::insert_relaxed"
+#[kani::proof]
+#[kani::unwind(8)]
+#[kani::solver(minisat)]
+fn c17_headn_n0() {
+    headn::<0>();
+}
+
+// @verif prop=C17 tier=quick shape="1 stored ranges with free u64 bounds (invariant assumed); limit free u64; probe height free u64" funcs="BlockRanges::headn,BlockRangeExt::headn,BlockRanges::insert_relaxed"
+#[kani::proof]
+#[kani::unwind(8)]
+#[kani::solver(minisat)]
+fn c17_headn_n1() {
+    headn::<1>();
+}
+
+// @verif prop=C17 tier=thorough shape="2 stored ranges with free u64 bounds (invariant assumed); limit free u64; probe height free u64" funcs="BlockRanges::headn,BlockRangeExt::headn,BlockRanges::insert_relaxed"
+#[kani::proof]
+#[kani::unwind(8)]
+#[kani::solver(minisat)]
+fn c17_headn_n2() {
+    headn::<2>();
+}
+
+// @verif prop=C17 tier=thorough shape="3 stored ranges with free u64 bounds (invariant assumed); limit free u64; probe height free u64" funcs="BlockRanges::headn,BlockRangeExt::headn,BlockRanges::insert_relaxed"
+#[kani::proof]
+#[kani::unwind(8)]
+#[kani::solver(minisat)]
+fn c17_headn_n3() {
+    headn::<3>();
+}
+
+// @verif prop=C17 tier=quick shape="0 stored ranges with free u64 bounds (invariant assumed); limit free u64; probe height free u64" funcs="BlockRanges::tailn,BlockRangeExt::tailn,BlockRanges::insert_relaxed"
+#[kani::proof]
+#[kani::unwind(8)]
+#[kani::solver(minisat)]
+fn c17_tailn_n0() {
+    tailn::<0>();
+}
+
+// @verif prop=C17 tier=quick shape="1 stored ranges with free u64 bounds (invariant assumed); limit free u64; probe height free u64" funcs="BlockRanges::tailn,BlockRangeExt::tailn,BlockRanges::insert_relaxed"
+#[kani::proof]
+#[kani::unwind(8)]
+#[kani::solver(minisat)]
+fn c17_tailn_n1() {
+    tailn::<1>();
+}
+
+// @verif prop=C17 tier=thorough shape="2 stored ranges with free u64 bounds (invariant assumed); limit free u64; probe height free u64" funcs="BlockRanges::tailn,BlockRangeExt::tailn,BlockRanges::insert_relaxed"
+#[kani::proof]
+#[kani::unwind(8)]
+#[kani::solver(minisat)]
+fn c17_tailn_n2() {
+    tailn::<2>();
+}
+
+// @verif prop=C17 tier=thorough shape="3 stored ranges with free u64 bounds (invariant assumed); limit free u64; probe height free u64" funcs="BlockRanges::tailn,BlockRangeExt::tailn,BlockRanges::insert_relaxed"
+#[kani::proof]
+#[kani::unwind(8)]
+#[kani::solver(minisat)]
+fn c17_tailn_n3() {
+    tailn::<3>();
+}
+
+// @verif prop=C17 tier=quick shape="0 stored ranges with free u64 bounds (invariant assumed); ; probe height free u64" funcs="BlockRanges::edges,BlockRanges::insert_relaxed"
+#[kani::proof]
+#[kani::unwind(8)]
+#[kani::solver(minisat)]
+fn c17_edges_n0() {
+    edges::<0>();
+}
+
+// @verif prop=C17 tier=quick shape="1 stored ranges with free u64 bounds (invariant assumed); ; probe height free u64" funcs="BlockRanges::edges,BlockRanges::insert_relaxed"
+#[kani::proof]
+#[kani::unwind(8)]
+#[kani::solver(minisat)]
+fn c17_edges_n1() {
+    edges::<1>();
+}
+
+// @verif prop=C17 tier=thorough shape="2 stored ranges with free u64 bounds (invariant assumed); ; probe height free u64" funcs="BlockRanges::edges,BlockRanges::insert_relaxed"
+#[kani::proof]
+#[kani::unwind(8)]
+#[kani::solver(minisat)]
+fn c17_edges_n2() {
+    edges::<2>();
+}
+
+// @verif prop=C17 tier=thorough shape="3 stored ranges with free u64 bounds (invariant assumed); ; probe height free u64" funcs="BlockRanges::edges,BlockRanges::insert_relaxed"
+#[kani::proof]
+#[kani::unwind(8)]
+#[kani::solver(minisat)]
+fn c17_edges_n3() {
+    edges::<3>();
+}
+
+// @verif prop=C17 tier=quick shape="0 stored ranges with free u64 bounds (invariant assumed); x>=1 free u64; probe height free u64" funcs="BlockRanges::{left_of,right_of},BlockRangeExt::{is_left_of,is_right_of}"
+#[kani::proof]
+#[kani::unwind(8)]
+#[kani::solver(minisat)]
+fn c17_left_right_of_n0() {
+    left_right_of::<0>();
+}
+
+// @verif prop=C17 tier=quick shape="1 stored ranges with free u64 bounds (invariant assumed); x>=1 free u64; probe height free u64" funcs="BlockRanges::{left_of,right_of},BlockRangeExt::{is_left_of,is_right_of}"
+#[kani::proof]
+#[kani::unwind(8)]
+#[kani::solver(minisat)]
+fn c17_left_right_of_n1() {
+    left_right_of::<1>();
+}
+
+// @verif prop=C17 tier=thorough shape="2 stored ranges with free u64 bounds (invariant assumed); x>=1 free u64; probe height free u64" funcs="BlockRanges::{left_of,right_of},BlockRangeExt::{is_left_of,is_right_of}"
+#[kani::proof]
+#[kani::unwind(8)]
+#[kani::solver(minisat)]
+fn c17_left_right_of_n2() {
+    left_right_of::<2>();
+}
+
+// @verif prop=C17 tier=thorough shape="3 stored ranges with free u64 bounds (invariant assumed); x>=1 free u64; probe height free u64" funcs="BlockRanges::{left_of,right_of},BlockRangeExt::{is_left_of,is_right_of}"
+#[kani::proof]
+#[kani::unwind(8)]
+#[kani::solver(minisat)]
+fn c17_left_right_of_n3() {
+    left_right_of::<3>();
+}
+
+// @verif prop=C17 tier=quick shape="0 stored ranges with free u64 bounds (invariant assumed); ; probe height free u64" funcs="BlockRanges::partitions,BlockRanges::{len,pop_head,pop_tail,insert_relaxed}"
+#[kani::proof]
+#[kani::unwind(8)]
+#[kani::solver(minisat)]
+fn c17_partitions_n0() {
+    partitions::<0>();
+}
+
+// @verif prop=C17 tier=quick shape="1 stored ranges with free u64 bounds (invariant assumed); ; probe height free u64" funcs="BlockRanges::partitions,BlockRanges::{len,pop_head,pop_tail,insert_relaxed}"
+#[kani::proof]
+#[kani::unwind(8)]
+#[kani::solver(minisat)]
+fn c17_partitions_n1() {
+    partitions::<1>();
+}
+
+// @verif prop=C17 tier=thorough shape="2 stored ranges with free u64 bounds (invariant assumed); ; probe height free u64" funcs="BlockRanges::partitions,BlockRanges::{len,pop_head,pop_tail,insert_relaxed}"
+#[kani::proof]
+#[kani::unwind(8)]
+#[kani::solver(minisat)]
+fn c17_partitions_n2() {
+    partitions::<2>();
+}
+
+// @verif prop=C17 tier=thorough shape="3 stored ranges with free u64 bounds (invariant assumed); ; probe height free u64" funcs="BlockRanges::partitions,BlockRanges::{len,pop_head,pop_tail,insert_relaxed}"
+#[kani::proof]
+#[kani::unwind(8)]
+#[kani::solver(minisat)]
+fn c17_partitions_n3() {
+    partitions::<3>();
+}
+
+// @verif prop=C17 tier=quick shape="operands with 0 and 0 stored ranges, free u64 bounds (invariant assumed); probe height free u64" funcs="<BlockRanges as BitOr>::bitor,AddAssign::add_assign,BlockRanges::insert_relaxed"
+#[kani::proof]
+#[kani::unwind(8)]
+#[kani::solver(minisat)]
+fn c17_union_n0_m0() {
+    union::<0, 0>();
+}
+
+// @verif prop=C17 tier=quick shape="operands with 1 and 0 stored ranges, free u64 bounds (invariant assumed); probe height free u64" funcs="<BlockRanges as BitOr>::bitor,AddAssign::add_assign,BlockRanges::insert_relaxed"
+#[kani::proof]
+#[kani::unwind(8)]
+#[kani::solver(minisat)]
+fn c17_union_n1_m0() {
+    union::<1, 0>();
+}
+
+// @verif prop=C17 tier=quick shape="operands with 0 and 1 stored ranges, free u64 bounds (invariant assumed); probe height free u64" funcs="<BlockRanges as BitOr>::bitor,AddAssign::add_assign,BlockRanges::insert_relaxed"
+#[kani::proof]
+#[kani::unwind(8)]
+#[kani::solver(minisat)]
+fn c17_union_n0_m1() {
+    union::<0, 1>();
+}
+
+// @verif prop=C17 tier=quick shape="operands with 1 and 1 stored ranges, free u64 bounds (invariant assumed); probe height free u64" funcs="<BlockRanges as BitOr>::bitor,AddAssign::add_assign,BlockRanges::insert_relaxed"
+#[kani::proof]
+#[kani::unwind(8)]
+#[kani::solver(minisat)]
+fn c17_union_n1_m1() {
+    union::<1, 1>();
+}
+
+// @verif prop=C17 tier=thorough shape="operands with 2 and 1 stored ranges, free u64 bounds (invariant assumed); probe height free u64" funcs="<BlockRanges as BitOr>::bitor,AddAssign::add_assign,BlockRanges::insert_relaxed"
+#[kani::proof]
+#[kani::unwind(8)]
+#[kani::solver(minisat)]
+fn c17_union_n2_m1() {
+    union::<2, 1>();
+}
+
+// @verif prop=C17 tier=thorough shape="operands with 1 and 2 stored ranges, free u64 bounds (invariant assumed); probe height free u64" funcs="<BlockRanges as BitOr>::bitor,AddAssign::add_assign,BlockRanges::insert_relaxed"
+#[kani::proof]
+#[kani::unwind(8)]
+#[kani::solver(minisat)]
+fn c17_union_n1_m2() {
+    union::<1, 2>();
+}
+
+// @verif prop=C17 tier=thorough shape="operands with 2 and 2 stored ranges, free u64 bounds (invariant assumed); probe height free u64" funcs="<BlockRanges as BitOr>::bitor,AddAssign::add_assign,BlockRanges::insert_relaxed"
+#[kani::proof]
+#[kani::unwind(8)]
+#[kani::solver(minisat)]
+fn c17_union_n2_m2() {
+    union::<2, 2>();
+}
+
+// @verif prop=C17 tier=thorough shape="operands with 1 and 1 stored ranges, free u64 bounds (invariant assumed); probe height free u64" funcs="<BlockRanges as AddAssign<&BlockRanges>>::add_assign,BlockRanges::insert_relaxed"
+#[kani::proof]
+#[kani::unwind(8)]
+#[kani::solver(minisat)]
+fn c17_add_n1_m1() {
+    add::<1, 1>();
+}
+
+// @verif prop=C17 tier=thorough shape="operands with 2 and 1 stored ranges, free u64 bounds (invariant assumed); probe height free u64" funcs="<BlockRanges as AddAssign<&BlockRanges>>::add_assign,BlockRanges::insert_relaxed"
+#[kani::proof]
+#[kani::unwind(8)]
+#[kani::solver(minisat)]
+fn c17_add_n2_m1() {
+    add::<2, 1>();
+}
+
+// @verif prop=C17 tier=quick shape="operands with 0 and 0 stored ranges, free u64 bounds (invariant assumed); probe height free u64" funcs="<BlockRanges as Sub>::sub,SubAssign::sub_assign,BlockRanges::remove_relaxed"
+#[kani::proof]
+#[kani::unwind(8)]
+#[kani::solver(minisat)]
+fn c17_difference_n0_m0() {
+    difference::<0, 0>();
+}
+
+// @verif prop=C17 tier=quick shape="operands with 1 and 0 stored ranges, free u64 bounds (invariant assumed); probe height free u64" funcs="<BlockRanges as Sub>::sub,SubAssign::sub_assign,BlockRanges::remove_relaxed"
+#[kani::proof]
+#[kani::unwind(8)]
+#[kani::solver(minisat)]
+fn c17_difference_n1_m0() {
+    difference::<1, 0>();
+}
+
+// @verif prop=C17 tier=quick shape="operands with 0 and 1 stored ranges, free u64 bounds (invariant assumed); probe height free u64" funcs="<BlockRanges as Sub>::sub,SubAssign::sub_assign,BlockRanges::remove_relaxed"
+#[kani::proof]
+#[kani::unwind(8)]
+#[kani::solver(minisat)]
+fn c17_difference_n0_m1() {
+    difference::<0, 1>();
+}
+
+// @verif prop=C17 tier=quick shape="operands with 1 and 1 stored ranges, free u64 bounds (invariant assumed); probe height free u64" funcs="<BlockRanges as Sub>::sub,SubAssign::sub_assign,BlockRanges::remove_relaxed"
+#[kani::proof]
+#[kani::unwind(8)]
+#[kani::solver(minisat)]
+fn c17_difference_n1_m1() {
+    difference::<1, 1>();
+}
+
+// @verif prop=C17 tier=thorough shape="operands with 2 and 1 stored ranges, free u64 bounds (invariant assumed); probe height free u64" funcs="<BlockRanges as Sub>::sub,SubAssign::sub_assign,BlockRanges::remove_relaxed"
+#[kani::proof]
+#[kani::unwind(8)]
+#[kani::solver(minisat)]
+fn c17_difference_n2_m1() {
+    difference::<2, 1>();
+}
+
+// @verif prop=C17 tier=thorough shape="operands with 1 and 2 stored ranges, free u64 bounds (invariant assumed); probe height free u64" funcs="<BlockRanges as Sub>::sub,SubAssign::sub_assign,BlockRanges::remove_relaxed"
+#[kani::proof]
+#[kani::unwind(8)]
+#[kani::solver(minisat)]
+fn c17_difference_n1_m2() {
+    difference::<1, 2>();
+}
+
+// @verif prop=C17 tier=thorough shape="operands with 2 and 2 stored ranges, free u64 bounds (invariant assumed); probe height free u64" funcs="<BlockRanges as Sub>::sub,SubAssign::sub_assign,BlockRanges::remove_relaxed"
+#[kani::proof]
+#[kani::unwind(8)]
+#[kani::solver(minisat)]
+fn c17_difference_n2_m2() {
+    difference::<2, 2>();
+}
+
+// @verif prop=C17 tier=quick shape="operands with 0 and 0 stored ranges, free u64 bounds (invariant assumed); probe height free u64; complement and union replaced by their contracts at the probe height" funcs="<BlockRanges as BitAnd>::bitand,<BlockRanges as BitAndAssign<&BlockRanges>>::bitand_assign"
+#[kani::proof]
+#[kani::unwind(8)]
+#[kani::solver(cadical)]
+#[kani::stub(<BlockRanges as std::ops::Not>::not, not_contract)]
+#[kani::stub(<BlockRanges as std::ops::BitOr<BlockRanges>>::bitor, bitor_contract)]
+fn c17_intersection_n0_m0() {
+    intersection::<0, 0>();
+}
+
+// @verif prop=C17 tier=quick shape="operands with 1 and 0 stored ranges, free u64 bounds (invariant assumed); probe height free u64; complement and union replaced by their contracts at the probe height" funcs="<BlockRanges as BitAnd>::bitand,<BlockRanges as BitAndAssign<&BlockRanges>>::bitand_assign"
+#[kani::proof]
+#[kani::unwind(8)]
+#[kani::solver(cadical)]
+#[kani::stub(<BlockRanges as std::ops::Not>::not, not_contract)]
+#[kani::stub(<BlockRanges as std::ops::BitOr<BlockRanges>>::bitor, bitor_contract)]
+fn c17_intersection_n1_m0() {
+    intersection::<1, 0>();
+}
+
+// @verif prop=C17 tier=quick shape="operands with 0 and 1 stored ranges, free u64 bounds (invariant assumed); probe height free u64; complement and union replaced by their contracts at the probe height" funcs="<BlockRanges as BitAnd>::bitand,<BlockRanges as BitAndAssign<&BlockRanges>>::bitand_assign"
+#[kani::proof]
+#[kani::unwind(8)]
+#[kani::solver(cadical)]
+#[kani::stub(<BlockRanges as std::ops::Not>::not, not_contract)]
+#[kani::stub(<BlockRanges as std::ops::BitOr<BlockRanges>>::bitor, bitor_contract)]
+fn c17_intersection_n0_m1() {
+    intersection::<0, 1>();
+}
+
+// @verif prop=C17 tier=quick shape="operands with 1 and 1 stored ranges, free u64 bounds (invariant assumed); probe height free u64; complement and union replaced by their contracts at the probe height" funcs="<BlockRanges as BitAnd>::bitand,<BlockRanges as BitAndAssign<&BlockRanges>>::bitand_assign"
+#[kani::proof]
+#[kani::unwind(8)]
+#[kani::solver(cadical)]
+#[kani::stub(<BlockRanges as std::ops::Not>::not, not_contract)]
+#[kani::stub(<BlockRanges as std::ops::BitOr<BlockRanges>>::bitor, bitor_contract)]
+fn c17_intersection_n1_m1() {
+    intersection::<1, 1>();
+}
+
+// @verif prop=C17 tier=thorough shape="operands with 2 and 1 stored ranges, free u64 bounds (invariant assumed); probe height free u64; complement and union replaced by their contracts at the probe height" funcs="<BlockRanges as BitAnd>::bitand,<BlockRanges as BitAndAssign<&BlockRanges>>::bitand_assign"
+#[kani::proof]
+#[kani::unwind(8)]
+#[kani::solver(cadical)]
+#[kani::stub(<BlockRanges as std::ops::Not>::not, not_contract)]
+#[kani::stub(<BlockRanges as std::ops::BitOr<BlockRanges>>::bitor, bitor_contract)]
+fn c17_intersection_n2_m1() {
+    intersection::<2, 1>();
+}
+
+// @verif prop=C17 tier=thorough shape="operands with 1 and 2 stored ranges, free u64 bounds (invariant assumed); probe height free u64; complement and union replaced by their contracts at the probe height" funcs="<BlockRanges as BitAnd>::bitand,<BlockRanges as BitAndAssign<&BlockRanges>>::bitand_assign"
+#[kani::proof]
+#[kani::unwind(8)]
+#[kani::solver(cadical)]
+#[kani::stub(<BlockRanges as std::ops::Not>::not, not_contract)]
+#[kani::stub(<BlockRanges as std::ops::BitOr<BlockRanges>>::bitor, bitor_contract)]
+fn c17_intersection_n1_m2() {
+    intersection::<1, 2>();
+}
+
+// @verif prop=C17 tier=thorough shape="operands with 2 and 2 stored ranges, free u64 bounds (invariant assumed); probe height free u64; complement and union replaced by their contracts at the probe height" funcs="<BlockRanges as BitAnd>::bitand,<BlockRanges as BitAndAssign<&BlockRanges>>::bitand_assign"
+#[kani::proof]
+#[kani::unwind(8)]
+#[kani::solver(cadical)]
+#[kani::stub(<BlockRanges as std::ops::Not>::not, not_contract)]
+#[kani::stub(<BlockRanges as std::ops::BitOr<BlockRanges>>::bitor, bitor_contract)]
+fn c17_intersection_n2_m2() {
+    intersection::<2, 2>();
+}
